@@ -22,17 +22,19 @@ CONSTANTS RecentDays,    \* fetchrecentrefsdays + pruneoffsetdays (default 7 + 3
 VARIABLES staged,   \* path -> blob staged but not committed ("same" = index equals HEAD)
           stashed,  \* oids referenced by stash commits
           pruned,   \* oids deleted by prune (observation); a behaviour ends with its prune
-          wt        \* branch checked out in the linked worktree, "none" when there is none
+          wt,       \* branch checked out in the linked worktree, "none" when there is none
+          rt2       \* branch -> commit of refs/remotes/other/<branch>: remote-tracking refs of a second remote
+                    \* (not the one prune verifies against); at most one of them is set
 VARIABLE done
-pvars == <<rvars, staged, stashed, pruned, wt, done, steps, hist>>
-PView == <<rvars, staged, stashed, wt, done>>
+pvars == <<rvars, staged, stashed, pruned, wt, rt2, done, steps, hist>>
+PView == <<rvars, staged, stashed, wt, rt2, done>>
 
 Clean == \A p \in Paths : staged[p] = "same"
-PInit == RepoInit /\ staged = [p \in Paths |-> "same"] /\ stashed = {} /\ pruned = {} /\ wt = "none" /\ done = FALSE
+PInit == RepoInit /\ staged = [p \in Paths |-> "same"] /\ stashed = {} /\ pruned = {} /\ wt = "none" /\ rt2 = [b \in Branches |-> NoCommit] /\ done = FALSE
 
 TreeOids(c) == IF c = NoCommit THEN {} ELSE {commits[c].tree[p] : p \in Paths} \cap Oids
 WtOids      == IF wt = "none" THEN {} ELSE TreeOids(br[wt])
-AllRefs     == {br[b] : b \in Branches} \cup {rt[b] : b \in Branches}
+AllRefs     == {br[b] : b \in Branches} \cup {rt[b] : b \in Branches} \cup {rt2[b] : b \in Branches}
 Reachable   == PtrOids(ReachSet(AllRefs, commits), commits)
 \* "Unpushed LFS files" (git-lfs-prune(1)): referenced by a commit a local branch is ahead by,
 \* and by no commit the prune remote already has (those were uploaded by the pre-push hook,
@@ -49,34 +51,56 @@ MustRetain(f) == Unpushed \cup stashed \cup StagedOids
                  \cup (IF f = "force" THEN {} ELSE TreeOids(br[head]) \cup WtOids)
                  \cup (IF f \in {"recent", "force"} THEN {} ELSE RecentOids)
 
+\* the reasons one by one (MustRetain is their union), and which of them is, for some local object, the
+\* only reason it is retained: a prune in such a state tests that rule in isolation (used to steer replay)
+RecentOf(S) == UNION {TreeOids(c) : c \in {x \in S \ {NoCommit} : commits[x].age <= RecentDays}}
+Reason(name, f) ==
+  CASE name = "unpushed" -> Unpushed
+    [] name = "stash"    -> stashed
+    [] name = "index"    -> StagedOids
+    [] name = "head"     -> IF f = "force" THEN {} ELSE TreeOids(br[head])
+    [] name = "worktree" -> IF f = "force" THEN {} ELSE WtOids
+    [] name = "recent-local"  -> IF f \in {"recent", "force"} THEN {} ELSE RecentOf({br[b] : b \in Branches})
+    [] name = "recent-remote" -> IF f \in {"recent", "force"} THEN {} ELSE RecentOf({rt[b] : b \in Branches})
+    [] name = "recent-other-remote" -> IF f \in {"recent", "force"} THEN {} ELSE RecentOf({rt2[b] : b \in Branches})
+Reasons == {"unpushed", "stash", "index", "head", "worktree", "recent-local", "recent-remote", "recent-other-remote"}
+SoleReasons(f) == {n \in Reasons : \E o \in Reason(n, f) \cap LocalPresent : \A m \in Reasons \ {n} : o \notin Reason(m, f)}
+
 \* ---- dirty state (only on top of a finished history) -----------------------
 Stage(p, o) ==
   /\ br[head] # NoCommit /\ staged[p] = "same" /\ TreeOf(br[head])[p] # o
   /\ staged' = [staged EXCEPT ![p] = o]
   /\ local' = IF local[o] = "absent" THEN [local EXCEPT ![o] = "valid"] ELSE local
-  /\ UNCHANGED <<commits, br, rr, rt, head, server, everRemote, stashed, pruned, wt>>
+  /\ UNCHANGED <<commits, br, rr, rt, head, server, everRemote, stashed, pruned, wt, rt2>>
   /\ Log([a |-> "stage", p |-> p, oid |-> o])
 
 Stash(p, o) ==            \* edit p to content o, git stash
   /\ br[head] # NoCommit /\ Clean /\ TreeOf(br[head])[p] \notin {o, "none"}
   /\ stashed' = stashed \cup {o}
   /\ local' = IF local[o] = "absent" THEN [local EXCEPT ![o] = "valid"] ELSE local
-  /\ UNCHANGED <<commits, br, rr, rt, head, server, everRemote, staged, pruned, wt>>
+  /\ UNCHANGED <<commits, br, rr, rt, head, server, everRemote, staged, pruned, wt, rt2>>
   /\ Log([a |-> "stash", p |-> p, oid |-> o])
 
 AddWorktree(b) ==        \* git worktree add ../linked b  (a branch can be checked out only once)
   /\ wt = "none" /\ br[b] # NoCommit /\ b # head /\ wt' = b
-  /\ UNCHANGED <<commits, br, rr, rt, head, local, server, everRemote, staged, stashed, pruned>>
+  /\ UNCHANGED <<commits, br, rr, rt, head, local, server, everRemote, staged, stashed, pruned, rt2>>
   /\ Log([a |-> "worktree", b |-> b])
+
+\* a fetch from a second remote left refs/remotes/other/b at b's present commit
+OtherRemoteRef(b) ==
+  /\ br[b] # NoCommit /\ \A x \in Branches : rt2[x] = NoCommit
+  /\ rt2' = [rt2 EXCEPT ![b] = br[b]]
+  /\ UNCHANGED <<commits, br, rr, rt, head, local, server, everRemote, staged, stashed, pruned, wt>>
+  /\ Log([a |-> "otherremote", b |-> b])
 
 ServerLoses(o) ==
   /\ o \in server /\ server' = server \ {o}
-  /\ UNCHANGED <<commits, br, rr, rt, head, local, everRemote, staged, stashed, pruned, wt>>
+  /\ UNCHANGED <<commits, br, rr, rt, head, local, everRemote, staged, stashed, pruned, wt, rt2>>
   /\ Log([a |-> "serverloses", oid |-> o])
 
 Switch(b) ==             \* git checkout b
   /\ Clean /\ br[b] # NoCommit /\ head # b /\ b # wt /\ head' = b
-  /\ UNCHANGED <<commits, br, rr, rt, local, server, everRemote, staged, stashed, pruned, wt>>
+  /\ UNCHANGED <<commits, br, rr, rt, local, server, everRemote, staged, stashed, pruned, wt, rt2>>
   /\ Log([a |-> "switch", b |-> b])
 
 \* ---- the verdict action ------------------------------------------------------
@@ -89,12 +113,12 @@ Prune(f, from) ==        \* from: the worktree the command is run in ("main" | "
          del     == IF f = "dry-run" \/ halts THEN {} ELSE allowed      \* what the current code does (drift layer)
      IN /\ local' = [o \in Oids |-> IF o \in del THEN "absent" ELSE local[o]]
         /\ pruned' = pruned \cup del /\ done' = TRUE
-        /\ Log([a |-> "prune", flags |-> f, from |-> from, mustRetain |-> must \cap LocalPresent, allowed |-> allowed,
+        /\ Log([a |-> "prune", flags |-> f, from |-> from, sole |-> SoleReasons(f), mustRetain |-> must \cap LocalPresent, allowed |-> allowed,
                 localBefore |-> LocalPresent, reachable |-> Reachable, serverHas |-> server, expectDeleted |-> del])
-  /\ UNCHANGED <<commits, br, rr, rt, head, server, everRemote, staged, stashed, wt>>
+  /\ UNCHANGED <<commits, br, rr, rt, head, server, everRemote, staged, stashed, wt, rt2>>
 
 Keep == ~done /\ UNCHANGED done
-Hist == Keep /\ Clean /\ UNCHANGED <<staged, stashed, pruned, wt>>
+Hist == Keep /\ Clean /\ UNCHANGED <<staged, stashed, pruned, wt, rt2>>
 \* the branch of the linked worktree cannot be checked out (committed to) in the main one
 PCommit(b, p, blob, g) == Hist /\ b # wt /\ Commit(b, p, blob, g)
 PCommitTree(b, t, g)   == Hist /\ b # wt /\ CommitTree(b, t, g)
@@ -106,6 +130,7 @@ PStash(p, o)           == Keep /\ Stash(p, o)
 PServerLoses(o)        == Keep /\ ServerLoses(o)
 PSwitch(b)             == Keep /\ Switch(b)
 PWorktree(b)           == Keep /\ AddWorktree(b)
+POtherRemote(b)        == Keep /\ Clean /\ OtherRemoteRef(b)
 PPrune(f, from)        == ~done /\ Prune(f, from)
 
 PNext == \/ \E b \in Branches, p \in Paths, blob \in Blobs, g \in Ages : PCommit(b, p, blob, g)
@@ -118,6 +143,7 @@ PNext == \/ \E b \in Branches, p \in Paths, blob \in Blobs, g \in Ages : PCommit
          \/ \E o \in Oids : PServerLoses(o)
          \/ \E b \in Branches : PSwitch(b)
          \/ \E b \in Branches : PWorktree(b)
+         \/ \E b \in Branches : POtherRemote(b)
          \/ \E f \in PruneFlags, from \in {"main", "linked"} : PPrune(f, from)
 PSpec == PInit /\ [][PNext]_pvars
 
@@ -130,7 +156,7 @@ NeverPrunesNeeded == [][\A f \in PruneFlags, from \in {"main", "linked"} : Prune
 \* deletes nothing, and --force with nothing prunable has nothing left to get wrong).
 FlagIdx(f) == CASE f = "none" -> 0 [] f = "verify-remote" -> 1 [] f = "recent" -> 2 [] OTHER -> 9
 StateKey == Len(commits) + Cardinality(LocalPresent) + Cardinality(server) + Cardinality(stashed)
-            + Cardinality({p \in Paths : staged[p] # "same"}) + (IF head = "main" THEN 0 ELSE 1) + (IF wt = "none" THEN 0 ELSE 2) + EmitSel
+            + Cardinality({p \in Paths : staged[p] # "same"}) + (IF head = "main" THEN 0 ELSE 1) + (IF wt = "none" THEN 0 ELSE 2) + Cardinality({b \in Branches : rt2[b] # NoCommit}) + EmitSel
 EmitPrune == LET e == hist'[Len(hist')] IN
              (Emit /\ e.a = "prune" /\ LocalPresent # {} /\ (e.allowed # {} \/ FlagIdx(e.flags) = StateKey % 3)) =>
                 CSVWrite("%1$s", <<ToJson(hist')>>, IOEnv.OUT)
